@@ -36,7 +36,21 @@ fn main() {
         "replay" => engine::run_replay(find(&args[2]), &args[3]),
         // fbv corpus c01_msg <dir> <n>: seed inputs for the libFuzzer target, drawn from the same generator
         "corpus" => {
-            props::c01::write_corpus(&args[3], args.get(4).and_then(|s| s.parse().ok()).unwrap_or(300));
+            let n = args.get(4).and_then(|s| s.parse().ok()).unwrap_or(300);
+            let dir = &args[3];
+            match args[2].as_str() {
+                "c01_msg" => props::c01::write_corpus(dir, n),
+                "c02_decode" => engine::write_json_corpus(props::c02::strategy(Tier::Quick), dir, n, 6000),
+                "c03_encode" => engine::write_json_corpus(props::c03::strategy(Tier::Quick), dir, n, 6000),
+                "c07_vfs" => engine::write_json_corpus(props::c07::strategy(true), dir, n, 12000),
+                "c12_init" => engine::write_json_corpus(props::c12::srv_strategy(), dir, n, 6000),
+                "c17_dirty" => engine::write_json_corpus(props::c17::msg_strategy(), dir, n, 8000),
+                "c19_persist" => engine::write_json_corpus(props::c19::strategy(), dir, n, 12000),
+                other => {
+                    eprintln!("no corpus generator for {}", other);
+                    return std::process::exit(2);
+                }
+            }
             0
         }
         _ => 2,
